@@ -68,11 +68,11 @@ type DkvStats struct {
 }
 
 var dkvHook struct {
-	once  sync.Once
-	mu    sync.Mutex
+	once      sync.Once
+	mu        sync.Mutex
 	installed bool
-	tune  DkvTune
-	stats DkvStats
+	tune      DkvTune
+	stats     DkvStats
 }
 
 // NeverMajor is the DkvTune.MaxSizeAmpPct value under which no compaction is a major one.
@@ -182,8 +182,8 @@ func CheckpointShape(oc OpCheckpoint) (CkptShape, error) {
 	}
 	var doc struct {
 		Checkpoints []struct {
-			ID     uint64 `json:"id"`
-			WALs   []struct {
+			ID   uint64 `json:"id"`
+			WALs []struct {
 				URI string `json:"uri"`
 			} `json:"wals"`
 			Levels [][]json.RawMessage `json:"levels"`
